@@ -105,11 +105,11 @@ def twice() -> list[bytes]:
         blob = enc_b64(p + b" " * (-len(p) % 3))
         out.append(blob + b"\n" + enc_hex(p) + b"\n" + blob + b"\n" + blob)
     plain = b"duck goes quack with evil.exe from 10.1.2.3 " * 12
-    for key in (35, 7, 255):
-        arr = b", ".join(b"%d" % (c ^ key) for c in plain)
+    for key in (35, 7, 255, 300, 999):
+        arr = b", ".join(b"%d" % ((c ^ key) & 0xFF) for c in plain)
         out.append(b"$b = " + arr + b" ; $b | % { $_ -bxor " + b"%d" % key + b" }")
-        out.append(b"[System.Convert]::FromBase64String('" + base64.b64encode(bytes(c ^ key for c in plain[:90])) + b"') -bxor %d" % key)
-        out.append(b"FromHexString('" + bytes(c ^ key for c in plain[:60]).hex().encode() + b"') -xor %d" % key)
+        out.append(b"[System.Convert]::FromBase64String('" + base64.b64encode(bytes((c ^ key) & 0xFF for c in plain[:90])) + b"') -bxor %d" % key)
+        out.append(b"FromHexString('" + bytes((c ^ key) & 0xFF for c in plain[:60]).hex().encode() + b"') -xor %d" % key)
     return out
 
 
